@@ -69,6 +69,14 @@ Theorem c08_period_refines_windows : forall t0 ops, Forall pos_windows ops ->
 Proof. intros. apply refines_windows; [intro k; exact I|assumption]. Qed.
 Print Assumptions c08_period_refines_windows.
 
+(* A replaced server (restart without persistence, fail-over, new container) is a fresh Redis: the
+   limiter keeps working and the history continues as from an empty store at the current clock
+   (so all theorems above apply again from there; the windows of the lost server are gone). *)
+Theorem c08_period_replace_fresh : forall st ops1 ops2,
+  prun st (ops1 ++ PReplace :: ops2) = prun st ops1 ++ prun (fst (pfinal st ops1), []) ops2.
+Proof. intros. apply prun_replace. Qed.
+Print Assumptions c08_period_replace_fresh.
+
 (* ---------------------------------------------------------------- token limiter *)
 
 (* For integer rate, burst >= 1 with 2*burst >= rate, distinct bucket keys that are absent initially,
@@ -122,7 +130,11 @@ Print Assumptions c08_token_bound.
    (5) along every event history from a fresh limiter: redisAlive = 0 iff the monitor is in its ping loop;
    (6) during an outage segment (no ping answered) all decisions are those of the rescue bucket run
        on the same requests, and Redis' state is untouched;
-   (7) after the first answered ping the very next healthy call is Redis's again. *)
+   (7) after the first answered ping the very next healthy call is Redis's again;
+   (8) the server that answers again may be a FRESH instance (TReplace: empty store, nothing cached):
+       the next healthy call is decided by a full bucket there (granted iff n <= burst) and both
+       bucket keys are written on the new server.
+   (the outage segment (6) may contain replacements; Redis' state is then of course not preserved) *)
 Theorem c08_fallback :
   (forall c w l now n cx, alive l = false ->
      reserve c w l now n cx =
@@ -141,15 +153,24 @@ Theorem c08_fallback :
   (forall c evs w l, alive l = false -> monitor l = MRunning -> ping_up w = false -> Forall no_pong evs ->
      let res := trun c (w, l) evs in
      snd res = rescue_only (c_rate c) (c_burst c) (rescue l) evs /\
-     rstore (fst (fst res)) = rstore w /\ alive (snd (fst res)) = false) /\
+     (Forall no_replace evs -> rstore (fst (fst res)) = rstore w) /\ alive (snd (fst res)) = false) /\
   (forall c w l now n s' ok,
      alive l = false -> monitor l = MRunning -> ping_up w = true -> eval_up w = true ->
      script_of c w now n = Some (s', ok) ->
      trun c (w, l) [TPing; TAllow now n CtxOk] =
-       ((mkW (clock w) s' (eval_up w) (ping_up w), mkL true MExiting (rescue l)), [ok])).
+       ((mkW (clock w) s' (eval_up w) (ping_up w), mkL true MExiting (rescue l)), [ok])) /\
+  (forall c w l now n,
+     1 <= c_rate c -> c_rate c <= 2 * c_burst c -> 0 <= c_burst c ->
+     alive l = false -> monitor l = MRunning ->
+     let ttl := 2 * c_burst c / c_rate c in
+     let ok := n <=? c_burst c in
+     let s' := rset (c_kts c) (now / 1000, Some (clock w + 1000 * ttl))
+                 (rset (c_ktok c) ((if ok then c_burst c - n else c_burst c), Some (clock w + 1000 * ttl)) []) in
+     trun c (w, l) [TReplace true true; TPing; TAllow now n CtxOk] =
+       ((mkW (clock w) s' true true, mkL true MExiting (rescue l)), [ok])).
 Proof.
   refine (conj reserve_not_alive (conj reserve_redis_error (conj reserve_ctx_done
-          (conj reserve_redis_decides (conj _ (conj outage_segment back_to_redis)))))).
+          (conj reserve_redis_decides (conj _ (conj outage_segment (conj back_to_redis fresh_server))))))).
   intros c w evs. apply trun_linv. exact linv_init.
 Qed.
 Print Assumptions c08_fallback.
@@ -204,4 +225,17 @@ Example c08_fallback_nonvacuous :
   let res := trun c (mkW 5500 [] true true, mkL true MIdle None) evs in
   snd res = [true; false; false; true; false; false; false] /\
   alive (snd (fst res)) = true /\ monitor (snd (fst res)) = MIdle.
+Proof. vm_compute. repeat split. Qed.
+
+(* Redis' bucket is empty; the server is replaced during an outage: the rescue bucket decides until the
+   new server answers the ping, then the new server's full bucket decides and holds both keys *)
+Example c08_replace_nonvacuous :
+  let c := mkC 2 3 0%nat 1%nat in
+  let evs := [TAllow 5500 3 CtxOk; TAllow 5500 1 CtxOk; TFault false false; TAllow 5500 1 CtxOk;
+              TReplace true false; TAllow 5500 1 CtxOk; TPing; TFault true true; TPing; TExit;
+              TAllow 5500 2 CtxOk; TAllow 5500 2 CtxOk] in
+  let res := trun c (mkW 5500 [] true true, mkL true MIdle None) evs in
+  snd res = [true; false; true; true; true; false] /\
+  rget 5500 0%nat (rstore (fst (fst res))) = Some (1, Some 8500) /\
+  rget 5500 1%nat (rstore (fst (fst res))) = Some (5, Some 8500).
 Proof. vm_compute. repeat split. Qed.
